@@ -117,6 +117,7 @@ def env_case(draw):
             "select": select,
             "share_env": draw(st.sampled_from([True, True, False])), "rotate": draw(st.integers(0, 8)),
             "preselect": draw(st.sampled_from([None, None, "query", "tags"])),
+            "other_option_first": draw(st.integers(0, 2)) == 0,
             "backends": draw(st.sampled_from([BACKENDS, BACKENDS, ["dip", "json", "yaml", "toml", "bash"], ["c", "cpp", "fortran", "rust"]]))}
 
 
@@ -715,6 +716,9 @@ def do_export(backend, env, case, ps_all):
         elif pre:
             exp.select()
         if backend in ("json", "yaml", "toml"):
+            if case.get("other_option_first"):
+                # the same exporter object asked for the other spelling first: each parse() answers its own options
+                exp.parse(units=not case["units"])
             return exp.parse(units=case["units"])
         if backend == "c":
             return exp.parse(define=tuple(".".join(case["params"][i]["path"]) for i in case["define"]) or None)
@@ -857,6 +861,8 @@ def check(case):
              for p in ps))
     v.label("env", *("be_" + b for b in case["backends"]), "rename" if case["rename"] else "norename",
             "select_" + str(case["select"]))
+    if case.get("other_option_first"):
+        v.label("parse_called_with_the_other_units_option_first")
     if case.get("preselect") and case.get("preselect") != case["select"]:
         v.label("selected_twice")
     return v
